@@ -72,7 +72,7 @@ CLAIMED["C11"] = dict(
     text="Proof (Lean 4): bincode round trip dec(enc m ++ r) = (m, r) for every representable machine (floats as raw bits, NaN payloads survive), base64 round trip, "
          "fromStr(serialize m) = m and identical re-serialisation (hence name) for every valid machine whose encoding fits 1 MiB under the stated zlib contract (a hypothesis, checked "
          "against the real flate2 path on every run), fromStr never panics and only yields validated machines for every string and every zlib behaviour, the legacy v1 parser never "
-         "indexes out of bounds. Correspondence on valid, hostile, v1 and bomb streams; peak allocation on bombs is measured as supporting evidence only. The memory half has a model-level theorem too (Proofs/CodecSize.lean): C11_decode_no_amplification - decodeMachine b = some m implies m.cells <= |b| with exact wire weights (19 header bytes, 16 per state, 25 per Dist, 1 per present vector, 5 per transition entry; attained on a 35-byte machine), C11_length_prefix_checked - a Vec length prefix exceeding the remaining bytes fails without iterating, and C11_fromStr_memory_model - for every zlib behaviour whose bounded read returns at most MAX bytes everything from_str builds is bounded (base64 output <= 3/4 |s|, decompressed <= MAX, cells + 19 <= MAX, 16 x states + 19 <= MAX, total <= |s| + 2 MAX) independent of how far the stream would expand; this counts cells, so type sizes, Vec growth and allocator overhead remain constant factors outside the model.",
+         "indexes out of bounds. Correspondence on valid, hostile, v1 and bomb streams; peak allocation of from_str is measured with a counting allocator on every hostile and bomb string and compared with a bound built from the model (read buffer, copies of the input, serde's cautious preallocation, and the number of states the model's decoder can complete from the bytes read): exceeding it is a monitor failure. The memory half has a model-level theorem too (Proofs/CodecSize.lean): C11_decode_no_amplification - decodeMachine b = some m implies m.cells <= |b| with exact wire weights (19 header bytes, 16 per state, 25 per Dist, 1 per present vector, 5 per transition entry; attained on a 35-byte machine), C11_length_prefix_checked - a Vec length prefix exceeding the remaining bytes fails without iterating, and C11_fromStr_memory_model - for every zlib behaviour whose bounded read returns at most MAX bytes everything from_str builds is bounded (base64 output <= 3/4 |s|, decompressed <= MAX, cells + 19 <= MAX, 16 x states + 19 <= MAX, total <= |s| + 2 MAX) independent of how far the stream would expand; this counts cells, so type sizes, Vec growth and allocator overhead remain constant factors outside the model.",
     ref="6 (C11)",
     technique="Lean 4 structural round-trip proofs over a bincode/base64/v1-parser model with zlib as a parameter + differential correspondence (valid, mutated, bomb strings)",
     note="Trusted in addition: zlib (flate2/miniz_oxide) is a parameter with a stated contract, validated on every run; heap use is outside the model (measured only); bincode/serde derive output is modelled and validated on every generated machine.",
